@@ -48,6 +48,13 @@ def define_pipeline(data, shape, shard_index=0, num_shards=1):
     t = t.assign('x', fn=col_add1, input_keys='a')
   if shape.get('filter'):
     t = t.filter(head_even, input_keys='a')
+  if shape.get('chain2'):
+    # two named stages, both aggregating: the states of both runners travel in one merged state
+    t = transform.TreeTransform.new(name='first').data_source(src).assign('x', fn=col_add1, input_keys='a').aggregate(
+        targets.SumAgg(), input_keys='x', output_keys=('s1', 'n1'))
+    t2 = transform.TreeTransform.new(name='second').assign('y', fn=col_double, input_keys='x').aggregate(
+        targets.SumAgg(), input_keys=('x', 'y'), output_keys=('s', 'n'))
+    return t.chain(t2)
   t = t.assign('y', fn=col_double, input_keys='x')
   t = t.aggregate(targets.SumAgg(), input_keys=('x', 'y'), output_keys=('s', 'n'))
   if shape.get('second_agg'):
